@@ -10,7 +10,9 @@ def nmea_stream(rng):
     parts = []
     for _ in range(rng.randrange(1, 5)):
         k = rng.choice(['good', 'bad', 'nochk', 'junk', 'ubx', 'lower', 'good', 'hibit', 'long'])
-        body = bytes(rng.choice(b'GPRMC,0123456789.ANE') for _ in range(rng.randrange(1, 25)))
+        body = bytes(rng.choice(b'GPRMC,0123456789.ANE  \t') for _ in range(rng.randrange(1, 25)))
+        if rng.random() < 0.2:
+            body = b' ' + body + b' '
         if k == 'hibit':
             # bytes >= 0x80 inside the sentence (valid UTF-8 sequences and lone bytes), checksum over all bytes
             ins = rng.choice([b'\xc3\xa9', b'\xe2\x82\xac', b'\x80', b'\xb5', b'\xff\xfe', b'\xf0\x9f\x98\x80'])
@@ -49,7 +51,13 @@ def check(tier, seed):
         cases = []
         n = 120 if tier == 'quick' else 4000
         for k in range(n):
-            if k % 2:
+            if k % 10 == 9:
+                # an unterminated sentence start, frames free of 0x0A, then a line end - all of it possibly in one block
+                frs = [G.frame(c_, i_, bytes(x for x in G.rand_payload(rng, rng.choice([0, 3, 8])) if x != 10)) for c_, i_ in (rng.choice(G.CIDS), rng.choice(G.CIDS))]
+                frs = [f_ for f_ in frs if 10 not in f_] or [G.frame(6, 1, b'\x01')]
+                s = rng.choice([b'', b'\r\n']) + rng.choice([b'$GPGGA,12', b'$GNTXT,01,01,02,x', b'$GPRMC,']) + b''.join(frs) + b'\r\n' + G.frame(5, 1, b'\x06\x01')
+                filt = G.CIDS
+            elif k % 2:
                 segs, s, _ = G.rand_segments(rng, 4)
                 filt = G.rand_filter(rng, segs)
             else:
